@@ -76,7 +76,20 @@ def objQuery (pf : PagingFacts) (st : ObjStore) (q : Query) : ObjOutcome (List R
   | .error e => .err e
   | .ok c =>
     match st.objs with
-    | none => .panic          -- `cursor.Current()` is called before the `cursor == nil` test
+    | none => .ok ([], 0)     -- `if cursor == nil { return nil, 0, nil }` (since bbcb51c before the cursor is used)
     | some objs => .ok (sortScan pf c (st.env q.filter) q.paging (some objs))
+
+/-- `QueryEntitiesC` for an arbitrary filter node, given by its evaluation on `ast.Symbols` -/
+def objQueryP (pf : PagingFacts) (st : ObjStore) (ev : Symbols → Bool) (sort : List SortField) (paging : Paging) :
+    ObjOutcome (List Row × Int) :=
+  match newRowComparator st.schema sort with
+  | .error e => .err e
+  | .ok c =>
+    match st.objs with
+    | none => .ok ([], 0)
+    | some objs => .ok (sortScan pf c { pred := fun r => ev (objSymbols st r) } paging (some objs))
+
+theorem objQuery_eq_P (pf : PagingFacts) (st : ObjStore) (q : Query) :
+    objQuery pf st q = objQueryP pf st (fun s => evalFilter s q.filter) q.sort q.paging := rfl
 
 end StorageModel.Query
